@@ -46,16 +46,41 @@ impl<T> PathAndQueryMatcher<T> {
         }
     }
 
-    pub fn batch_remove(&mut self, ids: &HashSet<String>) -> bool {
+    /// Remove routes by ids, returns ids of routes really removed
+    pub fn batch_remove(&mut self, ids: &HashSet<String>) -> HashSet<String> {
+        let mut removed = HashSet::new();
+
         self.static_rules.retain(|_, matcher| {
-            matcher.retain(|id, _| !ids.contains(id));
+            matcher.retain(|id, _| {
+                if ids.contains(id) {
+                    removed.insert(id.clone());
+
+                    return false;
+                }
+
+                true
+            });
 
             !matcher.is_empty()
         });
 
-        self.regex_tree_rule.retain(&|id, _| !ids.contains(id));
+        // retain only accepts a Fn closure, so removed ids are kept in a cell
+        let removed_in_tree = std::cell::RefCell::new(HashSet::new());
 
-        self.static_rules.is_empty() && self.regex_tree_rule.is_empty()
+        self.regex_tree_rule.retain(&|id, _| {
+            if ids.contains(id) {
+                removed_in_tree.borrow_mut().insert(id.to_string());
+
+                return false;
+            }
+
+            true
+        });
+
+        removed.extend(removed_in_tree.into_inner());
+        self.count -= removed.len();
+
+        removed
     }
 
     pub fn remove(&mut self, id: &str) -> Option<Arc<Route<T>>> {
